@@ -251,6 +251,13 @@ pub fn format_token(
     (Token::new(token_type), leading_trivia, trailing_trivia)
 }
 
+/// Formats a comment token which the formatter moves to a different place (e.g. off a removed semicolon or
+/// parentheses), so that it is normalised like a comment left in place (line endings, trailing whitespace).
+/// No surrounding trivia is added.
+pub fn format_moved_comment(ctx: &Context, comment: &Token, shape: Shape) -> Token {
+    format_token(ctx, comment, FormatTokenType::Token, shape).0
+}
+
 /// Wraps around the format_token function to create a complete list of trivia to add to a node.
 /// Handles any leading/trailing trivia provided by format_token, and appends it accordingly in relation to the formatted token.
 /// Mainly useful for comments
